@@ -299,6 +299,10 @@ func NewReporter(opts Options) (Reporter, error) {
 		tagCache:        cache.NewTagCache(),
 	}
 
+	// n.b. Set the clock before anything can be reported: timeLoop only
+	//      refreshes it once its goroutine gets to run.
+	r.now.Store(time.Now().UnixNano())
+
 	internalTags := map[string]string{
 		"version":  tally.Version,
 		"host":     tally.DefaultTagRedactValue,
